@@ -438,4 +438,238 @@ func runC05(r *Report) {
 	c05R3(r)
 	c05R4(r)
 	metadataCoAssign(r, "R5")
+	c05R6(r)
+	c05R7(r)
+	c05R8(r)
+}
+
+// R8 (from a round-2 seeded change): "at worst disconnects that one peer". Torrent.run ends as soon as
+// tor.handleEvent returns a non-nil error, so handleEvent may return only nil or a package-level sentinel (io.EOF for
+// the deliberate TorDone): a return that carries the result of a call (writePeer reporting that one peer has hung
+// up) turns one peer's failure into the death of the whole torrent.
+func c05R8(r *Report) {
+	p := r.P
+	he := p.Func("tor", "handleEvent")
+	if !r.Anchor("R8", "tor.handleEvent", he != nil) {
+		return
+	}
+	r.Fn(he)
+	n := 0
+	for _, ret := range returnsOf(he) {
+		res := retResults(ret)
+		if len(res) == 0 {
+			continue
+		}
+		n++
+		ev := res[len(res)-1]
+		okv := derivesOnlyFrom(ev, func(v ssa.Value) bool {
+			if isNilConst(v) {
+				return true
+			}
+			if ld, ok := v.(*ssa.UnOp); ok && ld.Op == token.MUL {
+				if _, isG := ld.X.(*ssa.Global); isG {
+					return true
+				}
+			}
+			return false
+		})
+		if !okv {
+			r.Fail("R8", fmt.Sprintf("handleEvent/return(%s)", exprStr(ev)), ret.Pos(), "tor.handleEvent returns %s: any non-nil error ends Torrent.run, so the failure of one call (a peer that has hung up) kills the whole torrent instead of at most that peer", exprStr(ev))
+		}
+	}
+	if n > 0 {
+		r.Ok("R8", "handleEvent/returns-nil-or-sentinel", he.Pos(), "%d returns checked: only nil or a package-level sentinel is returned", n)
+	}
+	r.Sentinel("R8", n, 10)
+}
+
+// R7 (from a round-2 seeded change): handling a message terminates. A necessary structural condition for the loops
+// that walk a peer-supplied buffer: a loop whose exit test reads a variable that the body advances by a computed,
+// non-constant step (`count += l`) makes progress only if that step is positive where it is added — established by
+// a guard in the body (`if l <= 0 { break }`, `if l == 0 …`) or by the step's own range. With a step that can be
+// zero the goroutine spins forever (here: holding the store's write lock) for a block that overruns its piece.
+func c05R7(r *Report) {
+	p := r.P
+	scope := c05Scope()
+	n := 0
+	for _, f := range p.SrcFuncs() {
+		if !scope[relPkg(f)] {
+			continue
+		}
+		for _, l := range naturalLoops(f) {
+			// exit tests of the loop: Ifs inside it with a successor outside
+			type exitT struct {
+				iff *ssa.If
+				bo  *ssa.BinOp
+			}
+			var exits []exitT
+			bounded := false
+			for b := range l.Blocks {
+				iff, ok := b.Instrs[len(b.Instrs)-1].(*ssa.If)
+				if !ok || (l.Blocks[b.Succs[0]] && l.Blocks[b.Succs[1]]) {
+					continue
+				}
+				bo, ok := iff.Cond.(*ssa.BinOp)
+				if !ok {
+					continue
+				}
+				exits = append(exits, exitT{iff, bo})
+				// a counter advanced by a positive constant and compared with a bound: the loop ends by itself
+				// (for i := 0; i < n; i++, range loops)
+				for _, side := range []ssa.Value{stripIntConv(bo.X), stripIntConv(bo.Y)} {
+					if _, step, isCtr := loopCounter(side); isCtr && step > 0 {
+						bounded = true
+					}
+					if add, ok := side.(*ssa.BinOp); ok && add.Op == token.ADD {
+						if _, step, isCtr := loopCounter(add.X); isCtr && step > 0 {
+							bounded = true
+						}
+					}
+				}
+			}
+			if bounded {
+				continue
+			}
+			// the variables the exit tests read, and how the body advances them: SSA phis, or cells of named results /
+			// captured variables (loads and stores of one local)
+			type adv struct {
+				name string
+				add  *ssa.BinOp
+				step ssa.Value
+			}
+			var advs []adv
+			seenAdd := map[*ssa.BinOp]bool{}
+			for _, ex := range exits {
+				for _, side := range []ssa.Value{stripIntConv(ex.bo.X), stripIntConv(ex.bo.Y)} {
+					if !isInteger(side.Type()) {
+						continue
+					}
+					switch x := side.(type) {
+					case *ssa.Phi:
+						if x.Block() != l.Head {
+							continue
+						}
+						for i, e := range x.Edges {
+							if !l.Blocks[x.Block().Preds[i]] {
+								continue
+							}
+							add, ok := e.(*ssa.BinOp)
+							if !ok || add.Op != token.ADD || seenAdd[add] {
+								continue
+							}
+							if add.X == ssa.Value(x) {
+								seenAdd[add] = true
+								advs = append(advs, adv{x.Comment, add, add.Y})
+							} else if add.Y == ssa.Value(x) {
+								seenAdd[add] = true
+								advs = append(advs, adv{x.Comment, add, add.X})
+							}
+						}
+					case *ssa.UnOp:
+						al, ok := x.X.(*ssa.Alloc)
+						if !ok || x.Op != token.MUL {
+							continue
+						}
+						for _, ref := range *al.Referrers() {
+							st, ok := ref.(*ssa.Store)
+							if !ok || st.Addr != ssa.Value(al) || !l.Blocks[st.Block()] {
+								continue
+							}
+							add, ok := st.Val.(*ssa.BinOp)
+							if !ok || add.Op != token.ADD || seenAdd[add] {
+								continue
+							}
+							isLoad := func(v ssa.Value) bool {
+								ld, ok := v.(*ssa.UnOp)
+								return ok && ld.Op == token.MUL && ld.X == ssa.Value(al)
+							}
+							if isLoad(add.X) {
+								seenAdd[add] = true
+								advs = append(advs, adv{al.Comment, add, add.Y})
+							} else if isLoad(add.Y) {
+								seenAdd[add] = true
+								advs = append(advs, adv{al.Comment, add, add.X})
+							}
+						}
+					}
+				}
+			}
+			for _, a := range advs {
+				if _, isC := a.step.(*ssa.Const); isC {
+					continue
+				}
+				n++
+				r.Fn(f)
+				key := fmt.Sprintf("%s/loop-progress(%s+=%s)", fname(f), a.name, exprStr(a.step))
+				env := &IntEnv{}
+				iv := env.At(a.step, a.add.Block())
+				pos := iv.Lo >= 1 || (isUnsigned(a.step.Type()) && env.nonZeroAt(a.step, a.add.Block()))
+				r.Check(pos, "R7", key, a.add.Pos(), fmt.Sprintf("the step is positive where it is added (%s)", iv),
+					fmt.Sprintf("the loop in %s exits on %s, which the body advances by %s — a step only known to be in %s where it is added: when it is zero the loop never ends (a peer's block that overruns its piece makes the goroutine spin with the store locked)", fname(f), a.name, exprStr(a.step), iv))
+			}
+		}
+	}
+	r.Sentinel("R7", n, 1)
+}
+
+// R6 (from a round-2 seeded change): the per-peer request set keeps a membership bitmap next to its two lists, and its
+// assertions (panic("Requests is broken!")) fire when they disagree — reachable from a Piece message or a cancel.
+// Every method of package peer/requests that stores to `queue` or `requested` also writes the bitmap on the same
+// path: before the store (Dequeue resets the bit, then shrinks the queue) or after it (Clear drops the lists, then
+// rebuilds the bitmap). A path that changes a list and leaves the bitmap alone breaks the invariant for whatever
+// sequence of messages later touches the stale bit.
+func c05R6(r *Report) {
+	p := r.P
+	bm := p.Field("peer/requests", "Requests", "bitmap")
+	q := p.Field("peer/requests", "Requests", "queue")
+	rq := p.Field("peer/requests", "Requests", "requested")
+	if !r.Anchor("R6", "requests.Requests.bitmap", bm != nil) || !r.Anchor("R6", "requests.Requests.queue", q != nil) || !r.Anchor("R6", "requests.Requests.requested", rq != nil) {
+		return
+	}
+	isBitmapWrite := func(in ssa.Instruction) bool {
+		if st, ok := in.(*ssa.Store); ok {
+			if fa, ok := st.Addr.(*ssa.FieldAddr); ok && fieldVar(fa) == bm {
+				return true
+			}
+		}
+		if c, ok := in.(*ssa.Call); ok && len(c.Call.Args) > 0 {
+			if cal := c.Call.StaticCallee(); cal != nil && relPkg(cal) == "bitmap" {
+				switch cal.Name() {
+				case "Set", "Reset", "SetMultiple", "Extend":
+					if fa, ok := c.Call.Args[0].(*ssa.FieldAddr); ok && fieldVar(fa) == bm {
+						return true
+					}
+				}
+			}
+		}
+		return false
+	}
+	n := 0
+	for _, f := range p.SrcFuncs() {
+		if relPkg(f) != "peer/requests" {
+			continue
+		}
+		allInstrs(f, func(in ssa.Instruction) {
+			st, ok := in.(*ssa.Store)
+			if !ok {
+				return
+			}
+			fa, ok := st.Addr.(*ssa.FieldAddr)
+			if !ok || (fieldVar(fa) != q && fieldVar(fa) != rq) {
+				return
+			}
+			n++
+			r.Fn(f)
+			key := fmt.Sprintf("%s/store(%s)#%d", fname(f), fieldVar(fa).Name(), n)
+			after := len(exitsAvoiding(st, isBitmapWrite, false)) == 0
+			before := false
+			if !after {
+				miss, reached := pathsMissingEntry(f, func(i ssa.Instruction) bool { return i == ssa.Instruction(st) }, nil, []edgeReq{{Name: "bitmap write", Instr: isBitmapWrite}})
+				before = reached > 0 && len(miss) == 0
+			}
+			r.Check(after || before, "R6", key, st.Pos(), "the membership bitmap is written on every path that changes this list",
+				fmt.Sprintf("%s changes the %s list on a path that never writes the membership bitmap: bits of entries that are gone stay set (or new entries have no bit), and the next Del/Cancel/Enqueue of such a block hits the package's own assertion panic — reachable from a Piece or Cancel message", fname(f), fieldVar(fa).Name()))
+		})
+	}
+	r.Sentinel("R6", n, 6)
 }
